@@ -21,15 +21,16 @@ LEVEL_TEXT = (
     "on blocking pools, every task finishes with its own echo, close() races end in completion or ClosedPoolError, nothing left open after the pool is dropped. Sampling of interleavings."
 )
 LEVEL_NOTE = "trusted: SimLifoQueue semantics (= queue.LifoQueue for the calls made), pre-emption granularity = Python lines of urllib3's own modules + simulated primitives (not inside http.client or C code)"
-N = {"quick": 60000, "thorough": 900000}
+N = {"quick": 12000, "thorough": 250000}
 BUDGET = {"quick": 55, "thorough": 420}
 RESAMPLE = 10
 RULE = (
-    "index k -> (pool config, 2-3 task scripts, optional close(), optional failing first attempt, schedule strategy uniform p in {0.01,0.03,0.1,0.3} or PCT d in {1,2,3}). "
+    "index k -> (pool config, 2-3 task scripts, optional close(), optional failing first attempt, schedule strategy uniform p in {0.01,0.03,0.1,0.3} or PCT d in {1,2,3}); "
+    "k%25==0: systematic stratum -- the scenario is run with no pre-emption to count its scheduling points S, then once per single pre-emption at each point (all points up to a cap) and for sampled pairs. "
     "Non-trivial = at least one pre-emptive context switch landed; distinct = distinct sequence of (task, code location) at context switches."
 )
 ASSUMPTIONS = ["races inside a single Python line, inside http.client or inside C code are out of reach (one thread runs at a time, switches happen between lines)"]
-REQUIRED_PROBES = {"quick": ["preempted", "blocked_in_get", "close_raced", "closed_pool_error", "retry_concurrent", "all_completed", "pct_schedule"], "thorough": ["preempted", "blocked_in_get", "close_raced", "closed_pool_error", "retry_concurrent", "all_completed", "pct_schedule"]}
+REQUIRED_PROBES = {"quick": ["preempted", "blocked_in_get", "close_raced", "closed_pool_error", "retry_concurrent", "all_completed", "pct_schedule", "systematic_single_preemption"], "thorough": ["preempted", "blocked_in_get", "close_raced", "closed_pool_error", "retry_concurrent", "all_completed", "pct_schedule"]}
 
 
 def warmup():
@@ -77,7 +78,32 @@ def gen(rng):
 
 
 def cases(seed, k, tier):
-    yield gen(rng_for(seed, ID, k))
+    rng = rng_for(seed, ID, k)
+    if k % 25 != 0:
+        yield gen(rng)
+        return
+    # systematic stratum: every single pre-emption (and sampled pairs) of one small scenario.
+    # Default continuation: the running task keeps running; on block the lowest-numbered ready task runs.
+    base = gen(rng)
+    base["tasks"] = base["tasks"][:2] if rng.random() < 0.7 else base["tasks"]
+    base["schedule"] = {"decisions": []}
+    yield base
+    r = run(base)
+    S_ = r.steps
+    names = [t["name"] for t in base["tasks"]]
+    cap = 250 if tier == "quick" else 1200
+    steps = list(range(1, S_ + 1))
+    if len(steps) > cap:
+        steps = sorted(rng.sample(steps, cap))
+    for st in steps:
+        sc = copy.deepcopy(base)
+        sc["schedule"] = {"decisions": [[st, rng.choice(names[1:]) if rng.random() < 0.8 else names[0]]]}
+        yield sc
+    for _ in range(cap // 2):
+        a, b = sorted(rng.sample(range(1, S_ + 40), 2))
+        sc = copy.deepcopy(base)
+        sc["schedule"] = {"decisions": [[a, rng.choice(names)], [b, rng.choice(names)]]}
+        yield sc
 
 
 def run(sc: dict) -> Result:
@@ -225,6 +251,8 @@ def run(sc: dict) -> Result:
             res.probes["retry_concurrent"] += 1
         if sc["schedule"].get("strategy") == "pct":
             res.probes["pct_schedule"] += 1
+        if len(sc["schedule"].get("decisions") or []) == 1 and sched.preemptions:
+            res.probes["systematic_single_preemption"] += 1
         # a task that is (or gets) parked in get() on the queue that close() swapped out can never be served from it
         seen_close = False
         for x in sched.trace:
